@@ -74,19 +74,20 @@ func promiseWorker(args []string) int {
 
 func promiseRunOne(req *PRunReq) (*PRunAns, bool) {
 	pool := vm.DefaultThreadPool.ThreadCount()
+	res := &PRunAns{Pool: pool, Queue: vm.DefaultThreadPool.TaskQueueSize()}
 	vm.VerifStart(req.Seed)
 	ans, mustExit := runOne(&req.RunReq)
-	res := &PRunAns{RunAns: ans, Pool: pool, Queue: vm.DefaultThreadPool.TaskQueueSize()}
+	res.RunAns = ans
 	var log []vm.VerifEvent
 	if mustExit {
 		// deadline passed: hang or merely slow?
 		a := len(vm.VerifSnapshot())
-		time.Sleep(250 * time.Millisecond)
+		time.Sleep(300 * time.Millisecond)
 		log = vm.VerifStop()
-		res.Hang = len(log) == a
+		// an empty log means the program was still being checked/compiled (loaded machine): slow, not hung
+		res.Hang = len(log) == a && len(log) > 0
 	} else {
-		// let tasks nobody waited for run to completion: every dequeue is closed by the
-		// worker's `unl` (suspended) or `resu` (finished)
+		// let tasks nobody waited for run to completion
 		deadline := time.Now().Add(600 * time.Millisecond)
 		for {
 			log = vm.VerifSnapshot()
